@@ -54,7 +54,25 @@ def prog_tokens(p):
         return [k]
     if k == "work":
         return ["work", str(p[1])] + prog_tokens(p[2])
+    if k == "spawn":
+        return ["spawn"] + prog_tokens(p[1]) + prog_tokens(p[2])
     return ["call", str(p[1]), p[2]] + prog_tokens(p[3]) + prog_tokens(p[4])
+
+
+def norm(p):
+    """spawn body k  ==  call 0 _ body k  for everything that only looks at timing / structure"""
+    return ["call", 0, "task", p[1], p[2]] if p[0] == "spawn" else p
+
+
+def has_spawn(p):
+    k = p[0]
+    if k in ("ret", "raise", "hang"):
+        return False
+    if k == "work":
+        return has_spawn(p[2])
+    if k == "spawn":
+        return True
+    return has_spawn(p[3]) or has_spawn(p[4])
 
 
 def natural(p):
@@ -69,6 +87,7 @@ def natural(p):
     if k == "work":
         d, o = natural(p[2])
         return (None if d is None else d + p[1]), o
+    p = norm(p)
     d, o = natural(p[3])
     if o != "ret":
         return d, o
@@ -85,6 +104,9 @@ def dehang(p, elapsed=0, release=RELEASE):
         return ["work", max(release - elapsed, 0), ["raise"]]
     if k == "work":
         return ["work", p[1], dehang(p[2], elapsed + p[1], release)]
+    if k == "spawn":
+        d, o = natural(p[1])
+        return ["spawn", dehang(p[1], elapsed, release), dehang(p[2], elapsed + (d or 0), release) if o == "ret" else p[2]]
     d, o = natural(p[3])
     return ["call", p[1], p[2], dehang(p[3], elapsed, release), dehang(p[4], elapsed + (d or 0), release) if o == "ret" else p[4]]
 
@@ -96,6 +118,8 @@ def calls(p, depth=0):
         return []
     if k == "work":
         return calls(p[2], depth)
+    if k == "spawn":
+        return calls(p[1], depth + 1) + calls(p[2], depth)
     return [(depth, p[1], p[2])] + calls(p[3], depth + 1) + calls(p[4], depth)
 
 
@@ -106,6 +130,7 @@ def nested_armed(p, outer=False):
         return False
     if k == "work":
         return nested_armed(p[2], outer)
+    p = norm(p)
     armed = p[1] > 0
     if armed and outer:
         return True
@@ -118,6 +143,8 @@ def perturb(p, delta):
         return p
     if k == "work":
         return ["work", max(p[1] + delta, 0), perturb(p[2], delta)]
+    if k == "spawn":
+        return ["spawn", perturb(p[1], delta), perturb(p[2], delta)]
     return ["call", p[1], p[2], perturb(p[3], delta), perturb(p[4], delta)]
 
 
@@ -198,8 +225,6 @@ class RigTransportBase:
                 raise RigError("closed while blocked in read")
 
     async def ablock(self, d):
-        if self.closed:
-            raise RigError("read on a closed transport")
         end = None if d is None else time.monotonic() + d
         while True:
             now = time.monotonic()
@@ -209,8 +234,8 @@ class RigTransportBase:
                 raise RigError("read released")
             lim = min(x for x in (end, self.release_at) if x is not None) - now
             await asyncio.sleep(max(min(lim, 0.005), 0))
-            if self.closed and self.close_wakes:
-                raise RigError("closed while blocked in read")
+            # asyncio reads are ended by cancellation, not by close(): a task that nobody cancels keeps waiting
+            # (model: runA does not look at `closed`); this keeps the orphan observation deterministic
 
 
 def run_prog_case(c):
@@ -244,6 +269,9 @@ def run_prog_case(c):
         elif k == "work":
             T.block(p[1] * TICK)
             interp(p[2], top)
+        elif k == "spawn":
+            interp(p[1], False)
+            interp(p[2], top)
         else:
             _, t, name, body, cont = p
 
@@ -268,6 +296,11 @@ def run_prog_case(c):
         elif k == "work":
             await T.ablock(p[1] * TICK)
             await ainterp(p[2], top)
+        elif k == "spawn":
+            task = asyncio.ensure_future(ainterp(p[1], False))
+            await asyncio.wait({task})          # does not cancel `task` when it is cancelled itself
+            task.result()
+            await ainterp(p[2], top)
         else:
             _, t, name, body, cont = p
 
@@ -284,9 +317,20 @@ def run_prog_case(c):
         res["caller"] = _sig_ctx()
         t0 = time.monotonic()
         T.release_at = t0 + c.get("release", RELEASE) * TICK
+        async def arun():
+            before_t = set(asyncio.all_tasks())
+            try:
+                await ainterp(c["prog"], True)
+            finally:
+                res["elapsed"] = time.monotonic() - t0
+                await asyncio.sleep(0)
+                await asyncio.sleep(0)
+                me = asyncio.current_task()
+                res["tasks_left"] = sorted(getattr(t.get_coro(), "__qualname__", "?") for t in asyncio.all_tasks()
+                                           if t not in before_t and t is not me and not t.done())
         try:
             if is_async:
-                asyncio.run(ainterp(c["prog"], True))
+                asyncio.run(arun())
             else:
                 interp(c["prog"], True)
             res["out"], res["msg"], res["exc"] = "ret", None, None
@@ -296,7 +340,7 @@ def run_prog_case(c):
             res["out"], res["msg"], res["exc"] = "cancelled", str(e), type(e).__name__
         except BaseException as e:  # noqa
             res["out"], res["msg"], res["exc"] = "error", str(e), type(e).__name__
-        res["elapsed"] = time.monotonic() - t0
+        res.setdefault("elapsed", time.monotonic() - t0)
 
     old_nt = Settings.NO_TERMINATE_ON_TIMEOUT
     Settings.NO_TERMINATE_ON_TIMEOUT = bool(c["no_term"])
@@ -391,16 +435,24 @@ def _block_classes():
                 self.obs.append(_sig_ctx())
             return AsyncSimTransport.write(self, channel_input)
 
+        _reading = False
+
         @timeout_wrapper
         async def read(self):
-            self._pre_read()
-            while not self.buf:
-                if self.release_at is not None and time.monotonic() >= self.release_at:
-                    raise OSError("blocked read gave up (the rig's socket timeout)")
-                await asyncio.sleep(0.005)
-                if not self.opened and self.close_wakes:
-                    raise ScrapliConnectionError("transport closed while blocked in read")
-            return self._take()
+            if self._reading:     # asyncio.StreamReader: one reader at a time
+                raise RuntimeError("read() called while another coroutine is already waiting for incoming data")
+            self._reading = True
+            try:
+                self._pre_read()
+                while not self.buf:
+                    if self.release_at is not None and time.monotonic() >= self.release_at:
+                        raise OSError("blocked read gave up (the rig's socket timeout)")
+                    await asyncio.sleep(0.005)
+                    if not self.opened and self.close_wakes:
+                        raise ScrapliConnectionError("transport closed while blocked in read")
+                return self._take()
+            finally:
+                self._reading = False
 
     return BlockSim, ABlockSim
 
@@ -522,6 +574,30 @@ def run_stack_case(c):
             return ch.channel_authenticate_ssh(auth_password="pw", auth_private_key_passphrase="")
         raise ValueError(op)
 
+    async def arun():
+        """the operation, then: which tasks created by it are still pending (after two loop iterations), and — with the
+        connection kept (NO_TERMINATE) — does a follow-up read behave like a fresh read (blocks on the silent device)"""
+        before_t = set(asyncio.all_tasks())
+        try:
+            return await call_async()
+        finally:
+            res["elapsed"] = time.monotonic() - res.get("t0", time.monotonic())
+            await asyncio.sleep(0)
+            await asyncio.sleep(0)
+            me = asyncio.current_task()
+            res["tasks_left"] = sorted(getattr(x.get_coro(), "__qualname__", "?") for x in asyncio.all_tasks()
+                                       if x not in before_t and x is not me and not x.done())
+            if t.isalive() and c["stall"] != "never":
+                try:
+                    await asyncio.wait_for(type(t).read.__wrapped__(t), timeout=0.05)
+                    res["followup"] = "returned"
+                except asyncio.TimeoutError:
+                    res["followup"] = "blocks"
+                except OSError:
+                    res["followup"] = "blocks"        # the rig's read gave up: it was blocked
+                except BaseException as e:  # noqa
+                    res["followup"] = "raised " + repr(e)
+
     async def call_async():
         await t.open()
         t.release_at = time.monotonic() + RELEASE * TICK
@@ -543,7 +619,7 @@ def run_stack_case(c):
         res["t0"] = time.monotonic()
         try:
             if is_async:
-                asyncio.run(call_async())
+                asyncio.run(arun())
             else:
                 t.open()
                 t.release_at = time.monotonic() + RELEASE * TICK
@@ -554,7 +630,7 @@ def run_stack_case(c):
             res["out"], res["msg"], res["exc"] = "timeout", str(e), type(e).__name__
         except BaseException as e:  # noqa
             res["out"], res["msg"], res["exc"] = "error", str(e), type(e).__name__
-        res["elapsed"] = time.monotonic() - res["t0"]
+        res.setdefault("elapsed", time.monotonic() - res["t0"])
 
     old_nt = Settings.NO_TERMINATE_ON_TIMEOUT
     Settings.NO_TERMINATE_ON_TIMEOUT = bool(c["no_term"])
@@ -646,8 +722,25 @@ def run_telnet_case(c):
                     await conn.transport.open()
                     await asyncio.sleep(0.15)
                     await conn.channel.read()
+                    before_t = set(asyncio.all_tasks())
                     res["t0"] = time.monotonic()
-                    await conn.channel.send_input(CMD)
+                    try:
+                        await conn.channel.send_input(CMD)
+                    finally:
+                        res["elapsed"] = time.monotonic() - res["t0"]
+                        await asyncio.sleep(0)
+                        await asyncio.sleep(0)
+                        me = asyncio.current_task()
+                        res["tasks_left"] = sorted(getattr(x.get_coro(), "__qualname__", "?") for x in asyncio.all_tasks()
+                                                   if x not in before_t and x is not me and not x.done())
+                        if conn.transport.isalive():
+                            try:
+                                await asyncio.wait_for(type(conn.transport).read.__wrapped__(conn.transport), timeout=0.05)
+                                res["followup"] = "returned"
+                            except asyncio.TimeoutError:
+                                res["followup"] = "blocks"
+                            except BaseException as e:  # noqa
+                                res["followup"] = "raised " + repr(e)
                 runner = lambda: asyncio.run(go())  # noqa
             else:
                 from scrapli.driver import GenericDriver
@@ -666,7 +759,7 @@ def run_telnet_case(c):
                 res["out"], res["msg"], res["exc"] = "timeout", str(e), type(e).__name__
             except BaseException as e:  # noqa
                 res["out"], res["msg"], res["exc"] = "error", repr(e), type(e).__name__
-            res["elapsed"] = time.monotonic() - res.get("t0", time.monotonic())
+            res.setdefault("elapsed", time.monotonic() - res.get("t0", time.monotonic()))
             res["closed"] = not conn.transport.isalive()
             res["threads_new"] = [x.name for x in threading.enumerate()
                                   if x not in before and x.name not in ("c07-heartbeat", "c07-telnet-server")]
@@ -962,6 +1055,16 @@ def parse_model(line):
             "handler": d["handler"], "timer": None if d["timer"] == "-" else int(d["timer"]), "acts": acts}
 
 
+def pending(m, tasks_only=False):
+    """tasks / workers started by the time the call is over and not finished then.  tasks_only: count only the
+    awaitables that are Task objects on this interpreter — since Python 3.12 asyncio.wait_for awaits its coroutine
+    inside the calling task (asyncio.timeout) instead of wrapping it in a Task; the model records both kinds"""
+    if m["fin"] is None:
+        return 0
+    return sum(1 for a in m["acts"] if int(a[1]) <= m["fin"] and (a[2] == "inf" or int(a[2]) > m["fin"])
+               and (not tasks_only or sys.version_info < (3, 12) or a[0] == "task"))
+
+
 def expected_mech(c):
     """the property's own table: asyncio for coroutines; worker thread for system/telnet transports or a non-main
     thread; signal otherwise; timeout 0 => direct"""
@@ -984,8 +1087,9 @@ def stack_prog(c, nreads):
     name = {"send_input": "send_input", "get_prompt": "get_prompt", "interact": "send_inputs_interact",
             "auth_telnet": "channel_authenticate_telnet", "auth_ssh": "channel_authenticate_ssh"}[c["op"]]
     t_tr = c["t_tr"]
-    if c["stack"] == "async" and c["op"] == "auth_telnet":
+    if c["stack"] == "async" and c["op"] == "auth_telnet" and c["t_ops"]:
         t_tr = 0      # async telnet auth polls the read with its own wait_for(timeout_ops/20): the read's limit never fires
+                      # (timeout_ops 0: it polls without a limit, the read's own limit applies)
     tail = ["ret"] if c["stall"] == "never" else ["call", t_tr, "read", ["hang"], ["ret"]]
     body = tail
     for _ in range(nreads):
@@ -1034,9 +1138,14 @@ def is_open(ck, fid):
 
 
 # ---- case generation
-def gen_prog(rng, depth, budget, top):
-    """random program; budget = remaining natural ticks"""
+def gen_prog(rng, depth, budget, top, spawn=False):
+    """random program; budget = remaining natural ticks; spawn: asyncio programs may start tasks"""
     r = rng.random()
+    if spawn and depth > 0 and rng.random() < 0.25:
+        body = gen_prog(rng, depth - 1, budget, False, spawn)
+        d, o = natural(body)
+        cont = gen_prog(rng, depth - 1, budget - (d or 0), False, spawn) if (o == "ret" and rng.random() < 0.4) else ["ret"]
+        return ["spawn", body, cont]
     if budget <= 0 or r < 0.18:
         return rng.choice([["ret"], ["ret"], ["raise"], ["hang"]])
     if r < 0.5 or depth == 0:
@@ -1060,7 +1169,7 @@ def prog_cases(rng, n):
         tries += 1
         mech, cls, thread = confs[len(out) % len(confs)]
         t = rng.choice([0, 2, 5, 5])
-        body = gen_prog(rng, 2, 7, False)
+        body = gen_prog(rng, 2, 7, False, spawn=(mech == "asyncio" and rng.random() < 0.5))
         cont = ["ret"]
         if rng.random() < 0.2 and natural(body)[1] == "ret":
             cont = ["call", rng.choice([0, 2, 5]), rng.choice(CHANNEL_OPS), gen_prog(rng, 1, 4, False), ["ret"]]
@@ -1082,8 +1191,6 @@ def stack_cases(rng, tier):
     touts = [(0, 0), (0, 2), (0, 5), (2, 0), (2, 2), (2, 5), (5, 0), (5, 2), (5, 5)]
     allc = []
     for (stack, mech, cls, thread), (op, stall), (t_ops, t_tr), nt in itertools.product(confs, ops, touts, (False, True)):
-        if stack == "async" and op == "auth_telnet" and t_ops == 0:
-            continue      # timeout_ops/20 == 0: the code spins in wait_for(…, 0); outside the property (no limit configured)
         allc.append({"kind": "stack", "stack": stack, "mech": mech, "cls": cls, "thread": thread, "op": op, "stall": stall,
                      "t_ops": t_ops, "t_tr": t_tr, "no_term": nt, "close_wakes": True, "zero": rng.choice(["int", "float"]),
                      "t_top": t_ops})
@@ -1220,6 +1327,8 @@ def run(tier, seed):
             return p
         if k == "work":
             return ["work", max(p[1] * 10 + delta, 0), fine(p[2], delta, depth)]
+        if k == "spawn":
+            return ["spawn", fine(p[1], delta, depth + 1), fine(p[2], delta, depth)]
         t = p[1] * 10 + (3 * depth * (1 if delta > 0 else -1 if delta < 0 else 0) if p[1] else 0)
         return ["call", t, p[2], fine(p[3], delta, depth + 1), fine(p[4], delta, depth)]
     lines = []
@@ -1235,7 +1344,7 @@ def run(tier, seed):
     keep, ties = [], 0
     for i, c in enumerate(pcases):
         z, a, b = parse_model(mo[3 * i]), parse_model(mo[3 * i + 1]), parse_model(mo[3 * i + 2])
-        key = lambda x: (x["out"], x["msg"], x["closed"], len(x["acts"]))  # noqa
+        key = lambda x: (x["out"], x["msg"], x["closed"], len(x["acts"]), pending(x))  # noqa
         nw = sum(1 for x in prog_tokens(c["prog"]) if x == "work") + 1
         # no decision (done / not done, which deadline first) may flip within +-50 ms: then the end time responds
         # linearly to the perturbation
@@ -1442,6 +1551,10 @@ def evaluate(ck, c, r, m):
         mism.append(f"worker threads impl={r['workers']} model={len(m['acts'])}")
     if kind == "prog" and c["mech"] != "thread" and r["workers"] != 0:
         mism.append(f"worker threads impl={r['workers']} model=0")
+    if c["mech"] == "asyncio" and "tasks_left" in r and m["fin"] is not None:
+        pend = pending(m, tasks_only=True)
+        if len(r["tasks_left"]) != pend:
+            mism.append(f"tasks pending after the call impl={r['tasks_left']} model={pend}")
     if mism:
         ck.disagree(f"Timeout model vs timeout_wrapper ({c['mech']})", case, "; ".join(mism))
     else:
@@ -1475,7 +1588,7 @@ def evaluate(ck, c, r, m):
                     raise_harness(ck, f"machine too loaded to judge the deadline of {case}")
                 else:
                     ck.violation({**info, "viol": "late", "limit": limit}, f"raised/returned {el:.2f}s after the start, configured timeout {limit:.2f}s", matcher)
-    if not t_top and kind == "stack" and c["t_tr"] and c["stall"] != "never" and promptable and not (c["stack"] == "async" and c["op"] == "auth_telnet"):
+    if not t_top and kind == "stack" and c["t_tr"] and c["stall"] != "never" and promptable:
         if el > c["t_tr"] * TICK + tight and quiet:     # the blocked transport read has its own limit
             ck.violation({**info, "viol": "late", "limit": c["t_tr"] * TICK}, f"transport read limit {c['t_tr'] * TICK:.2f}s, raised after {el:.2f}s", matcher)
     # must time out when it cannot finish; must not when it can
@@ -1518,6 +1631,12 @@ def evaluate(ck, c, r, m):
         ck.violation({**info, "viol": "thread_left", "threads": r["threads_new"]}, "a worker thread is still running after the call", matcher)
     if not r["lock_free"]:
         ck.violation({**info, "viol": "lock_left"}, "the channel lock is still held after the call", matcher)
+    # asyncio: no task created by the operation survives it (programs that spawn on purpose are correspondence-only)
+    if r.get("tasks_left") and not (kind == "prog" and has_spawn(c["prog"])):
+        ck.violation({**info, "viol": "task_left", "tasks": r["tasks_left"]}, "a task created by the operation is still pending after it raised/returned", matcher)
+    if r.get("followup", "blocks") != "blocks":
+        ck.violation({**info, "viol": "followup_read", "followup": r["followup"]},
+                     "connection kept after the timeout, but a follow-up read does not behave like a fresh read on the silent device", matcher)
 
 
 def evaluate_rig(ck, c, r, m, wakes):
@@ -1576,6 +1695,11 @@ def evaluate_rig(ck, c, r, m, wakes):
         ck.violation({**info, "viol": "lock_left"}, "the channel lock is still held after the call", matcher)
     if not r["handler_same"] or r["itimer_after"]:
         ck.violation({**info, "viol": "handler_not_restored"}, "SIGALRM handler / timer changed", matcher)
+    if r.get("tasks_left"):
+        ck.violation({**info, "viol": "task_left", "tasks": r["tasks_left"]}, "a task created by the operation is still pending after it raised/returned", matcher)
+    if r.get("followup", "blocks") != "blocks":
+        ck.violation({**info, "viol": "followup_read", "followup": r["followup"]},
+                     "connection kept after the timeout, but a follow-up read does not behave like a fresh read on the silent device", matcher)
 
 
 def replay_findings(ck, timed, results, rcases):
@@ -1623,6 +1747,10 @@ def replay(path):
         return 1 if res.get("threads_new") else 0
     if viol in ("lock_left",):
         return 0 if res.get("lock_free") else 1
+    if viol == "task_left":
+        return 1 if res.get("tasks_left") else 0
+    if viol == "followup_read":
+        return 1 if res.get("followup", "blocks") != "blocks" else 0
     if viol == "itimer_left_armed":
         return 1 if res.get("itimer_after") else 0
     return 1
